@@ -543,8 +543,18 @@ func checkCmd(args []string) int {
 			out  replayOutcome
 		}
 		var jobs []*job
+		perLabel := map[string]int{}
+		skipped := 0
 		for _, key := range order {
 			fsg := groups[key]
+			// at most 8 instance groups per assertion label are replayed and
+			// reported; the rest are counted (the verdict does not change)
+			lk := fsg[0].Kind + "|" + fsg[0].Label
+			perLabel[lk]++
+			if perLabel[lk] > 8 {
+				skipped++
+				continue
+			}
 			lim := 2
 			if len(fsg) < lim {
 				lim = len(fsg)
@@ -557,6 +567,9 @@ func checkCmd(args []string) int {
 				os.WriteFile(path, jb, 0o644)
 				jobs = append(jobs, &job{key: key, f: f, rf: rf, path: path})
 			}
+		}
+		if skipped > 0 {
+			fmt.Printf("[%s] %s: %d further failing instance groups not replayed (same assertion labels as the reported ones)\n", prop, h.fn, skipped)
 		}
 		var wg sync.WaitGroup
 		sem := make(chan struct{}, 8)
